@@ -195,6 +195,7 @@ func (e *Engine) LookupFunc(name string) (*ssa.Function, string, error) {
 type VerifyOpts struct {
 	IgnoreRequires bool // C10-style unconstrained safety run
 	SafetyOnly     bool
+	Also           bool // verify the function against its second ("also") contract
 }
 
 // VerifyFunction generates all obligations of one function against its contract.
@@ -204,9 +205,24 @@ func (e *Engine) VerifyFunction(fn *ssa.Function, opts VerifyOpts) (u *Unit) {
 	if opts.IgnoreRequires {
 		name += " /unconstrained"
 	}
+	if opts.Also {
+		pk, key := fnKey(fn)
+		ac := e.cs.Also[pk+"::"+key]
+		if ac == nil {
+			u = &Unit{Name: name + " [also]"}
+			u.errs = append(u.errs, "no 'also' contract for "+name)
+			return u
+		}
+		if fc != nil && len(ac.Loops) == 0 {
+			ac.Loops = fc.Loops
+		}
+		fc = ac
+		name += " [also]"
+	}
 	u = &Unit{Name: name, W: NewWorld(), eng: e, nameCnt: map[string]int{}, usedAssumed: map[string]bool{}, usedPureUF: map[string]bool{},
 		havocCalls: map[string]bool{}, inlined: map[string]bool{}, lockKeys: map[string]bool{}, hintTags: map[string]string{}, boxed: map[string]boxedVal{}}
 	u.Fn = fn
+	u.concurrent = fc != nil && fc.Opts["concurrent"] == "yes"
 	defer func() {
 		if r := recover(); r != nil {
 			if ea, ok := r.(execAbort); ok {
@@ -341,6 +357,14 @@ func (e *Engine) VerifyFunction(fn *ssa.Function, opts VerifyOpts) (u *Unit) {
 			}
 		}
 	}
+	// lock state named by the precondition (holds(p)) is the state the body starts in
+	for k, v := range x.entry.cells {
+		if ks, ok := k.(string); ok && strings.HasPrefix(ks, "lock:") {
+			if _, seen := st.cells[k]; !seen {
+				st.cells[k] = v
+			}
+		}
+	}
 	x.run(st, TTrue)
 	// return sites are numbered in source order
 	sort.SliceStable(x.rets, func(i, j int) bool { return x.rets[i].pos < x.rets[j].pos })
@@ -378,7 +402,11 @@ func (e *Engine) VerifyFunction(fn *ssa.Function, opts VerifyOpts) (u *Unit) {
 			// locks released
 			for k := range u.lockKeys {
 				if held, ok := r.st.cells[k].(Term); ok {
-					u.AddObl(fmt.Sprintf("%s / lock[released] @return#%d", name, r.ord), "lock", "every mutex acquired is released on return", r.reach, Eq(held, IntLit(0)), e.fset.Position(r.pos), name)
+					atEntry := Term(IntLit(0))
+					if eh, ok := x.entry.cells[k].(Term); ok {
+						atEntry = eh
+					}
+					u.AddObl(fmt.Sprintf("%s / lock[released] @return#%d", name, r.ord), "lock", "every mutex acquired is released on return (the lock state is as at entry)", r.reach, Eq(held, atEntry), e.fset.Position(r.pos), name)
 				}
 			}
 		}
